@@ -211,7 +211,13 @@ def work_round(job):
     mods = [('y<=1.25', Model(V, acons=[(None, {0: 1.0}, -INF, 1.25)])), ('y>=1.235', Model(V, acons=[(None, {0: 1.0}, 1.235, INF)])),
             ('y+x<=1234.5', Model(V, acons=[(None, {0: 1.0, 1: 1.0}, -INF, 1234.5)])), ('y>=1234.567', Model(V, acons=[(None, {0: 1.0}, 1234.567, INF)]))]
     ys = [1.26, 1.24, 1.234, 1.2, 1.0, 1234.9, 1234.5674, 1233.0, 1235.2]
-    for mname, m in mods:
+    # the mirror image: negative values and bounds (rounding to significant digits works on |v|)
+    VN = [(-2000.0, 0.0, False, 0.5), (-2.0, 2.0, True, 1.0), (0.0, 1.0, True, 1.0)]
+    mods = [(n, m, ys) for n, m in mods] + [
+        ('y>=-1.25', Model(VN, acons=[(None, {0: 1.0}, -1.25, INF)]), [-t for t in ys]), ('y<=-1.235', Model(VN, acons=[(None, {0: 1.0}, -INF, -1.235)]), [-t for t in ys]),
+        ('y+x>=-1234.5', Model(VN, acons=[(None, {0: 1.0, 1: 1.0}, -1234.5, INF)]), [-t for t in ys]),
+        ('y<=-1234.567', Model(VN, acons=[(None, {0: 1.0}, -INF, -1234.567)]), [-t for t in ys])]
+    for mname, m, ys in mods:
         nl = m.nl()
         for rnd in (None, 0, 1, 2, 3):
             for prec in (None, 1, 2, 3, 6):
@@ -236,7 +242,7 @@ def work_round(job):
                                           {'model': m.describe(), 'x': [y, xi, 0.0], 'rounded_reference_point': p, 'answer': v}, None))
                         elif exp_viol: st['violations_expected_and_reported'] += 1
                         else: st['clean_expected_and_clean'] += 1
-    return dict(st), viols[:20], sorted(classes), {'family': 'roundprec', 'models': [n for n, _ in mods], 'ys': ys}
+    return dict(st), viols[:20], sorted(classes), {'family': 'roundprec', 'models': [n for n, _, _ in mods], 'ys': ys}
 
 
 def work_tol(job):
